@@ -287,11 +287,16 @@ Theorem rk_propagate_task fuel : forall s t,
 Proof.
   induction fuel as [|fuel IH]; intros s t W L.
   - simpl. destruct (negb (is_prio_task s t)); [now apply rk_refl|].
-    destruct (task_is_runnable s t); [now apply rk_only_ready|].
-    destruct (twaiting (gett s t)); now apply rk_refl.
+    destruct (task_is_runnable s t); destruct (twaiting (gett _ t));
+      try (now apply rk_refl); now apply rk_only_ready.
   - simpl. destruct (negb (is_prio_task s t)) eqn:Ep; [now apply rk_refl|].
     apply negb_false_iff in Ep.
-    destruct (task_is_runnable s t); [now apply rk_only_ready|].
+    set (s0 := if task_is_runnable s t then task_reschedule s t else s).
+    assert (R0 : rk s s0).
+    { unfold s0. destruct (task_is_runnable s t); [now apply rk_only_ready|now apply rk_refl]. }
+    clearbody s0. eapply rk_trans; [exact R0|].
+    rewrite <- (rk_is_prio _ _ t R0) in Ep. pose proof (rk_wf _ _ R0) as W0.
+    pose proof (rk_lwt_ok _ _ R0 L) as L0. clear R0 W L s. rename s0 into s, W0 into W, L0 into L.
     destruct (twaiting (gett s t)) as [l|]; [|now apply rk_refl].
     set (s1 := match lowner (getl s l) with Some o => propagate_task fuel s o | None => s end).
     assert (R1 : rk s s1).
